@@ -317,6 +317,17 @@ impl Case for BlkCase {
         let mid: Vec<usize> = (0..self.futs.len()).filter(|i| self.futs[*i].tid.is_some()).collect();
         let blocked: Vec<usize> = (0..self.futs.len()).filter(|i| self.futs[*i].tid.is_none() && self.futs[*i].label == "pending-blocked").collect();
         let woken_blocked: Vec<usize> = blocked.iter().copied().filter(|i| !self.registered[*i]).collect();
+        // bias: let futures register while the ring thread is inside its wake pass,
+        // and hold futures right before registering while the ring thread enters
+        let at_reg: Vec<usize> = mid.iter().copied().filter(|i| self.futs[*i].label == "at-lock-blocked").collect();
+        if let Some(r) = &self.rw {
+            if (r.label == "at-lock2" || r.label == "at-try-lock") && !at_reg.is_empty() && rng.chance(2, 3) {
+                return Some(format!("blk f {}", rng.pick(&at_reg)));
+            }
+            if r.label.starts_with("at-enter") && !at_reg.is_empty() && rng.chance(1, 2) {
+                return Some("blk r".into());
+            }
+        }
         let w_f = if mid.is_empty() { 0 } else { 10 };
         let w_poll = if self.rw.is_none() { 5 } else { 0 };
         let w_r = if self.rw.is_some() { 8 } else { 0 };
